@@ -1,3 +1,201 @@
 package main
 
-func lockRows(errs *[]string) []lockRow { return nil }
+import (
+	"fmt"
+	"go/ast"
+	"go/printer"
+	"go/token"
+	"sort"
+	"strings"
+)
+
+// Syntactic lock-region analysis for C17: for every access to a field that is declared to be
+// protected by a mutex, is that mutex held at that point of the enclosing function (Lock/RLock
+// called earlier in source order on the same base expression and not yet released, a deferred
+// Unlock keeping it held to the end)? Function literals are analysed as functions of their own.
+
+type guardSpec struct {
+	dir    string
+	typ    string   // struct type ("" = package-level variables)
+	mutex  string   // mutex field / variable name
+	fields []string // guarded fields / variables
+	// via: methods of OTHER types that reach the guarded value through a field of their receiver
+	// (receiver type -> field name), e.g. Downloader.r is the *Receiver
+	via map[string]string
+}
+
+var guards = []guardSpec{
+	{"syncer/receiver", "Receiver", "mu", []string{"snapshotsByInstance", "lastSeenByInstance", "downloadersByInstance", "hasSnapshots", "corruptSnapshots"}, map[string]string{"Downloader": "r"}},
+	{"syncer/cleaner", "Worker", "mu", []string{"lastByInstance"}, nil},
+	{"utils/topics", "Topic", "mu", []string{"subscribers", "lastID", "last", "hasLast"}, nil},
+	{"utils/topics", "Subscription", "mu", []string{"topic", "ch"}, nil},
+	{"utils/climit", "Token", "mu", []string{"released", "cl"}, nil},
+	{"snapshot/storage", "", "mu", []string{"storage"}, nil},
+}
+
+// constructors and hook accessors that touch fields before the value is shared
+var lockExempt = map[string]bool{"New": true, "NewWithInitial": true, "Subscribe": false}
+
+func exprStr(e ast.Expr) string {
+	var b strings.Builder
+	_ = printer.Fprint(&b, token.NewFileSet(), e)
+	return b.String()
+}
+
+type lockScan struct {
+	base string         // the expression denoting the guarded value in this function ("" = none)
+	held map[string]int // lock expression -> depth (Lock count)
+	rows *[]lockRow
+	g    guardSpec
+	pkg  string
+	fn   string
+}
+
+func (ls *lockScan) isGuarded(name string) bool {
+	for _, f := range ls.g.fields {
+		if f == name {
+			return true
+		}
+	}
+	return false
+}
+
+// scan walks statements in source order.
+func (ls *lockScan) scan(n ast.Node) {
+	ast.Inspect(n, func(x ast.Node) bool {
+		switch v := x.(type) {
+		case *ast.FuncLit:
+			sub := &lockScan{base: ls.base, held: map[string]int{}, rows: ls.rows, g: ls.g, pkg: ls.pkg, fn: ls.fn + ".func"}
+			sub.scan(v.Body)
+			return false
+		case *ast.DeferStmt:
+			// defer X.mu.Unlock(): the lock stays held until the function returns
+			if lockOf(v.Call) != "" {
+				return false
+			}
+		case *ast.CallExpr:
+			if base, op := lockCall(v); base != "" {
+				switch op {
+				case "Lock", "RLock":
+					ls.held[base]++
+				case "Unlock", "RUnlock":
+					if ls.held[base] > 0 {
+						ls.held[base]--
+					}
+				}
+				return false
+			}
+		case *ast.SelectorExpr:
+			if ls.g.typ != "" && ls.isGuarded(v.Sel.Name) && ls.base != "" && exprStr(v.X) == ls.base {
+				base := exprStr(v.X)
+				lock := base + "." + ls.g.mutex
+				*ls.rows = append(*ls.rows, lockRow{ls.pkg, ls.g.typ, v.Sel.Name, ls.fn, "access", ls.held[lock] > 0})
+			}
+		case *ast.Ident:
+			if ls.g.typ == "" && ls.isGuarded(v.Name) && v.Obj != nil && v.Obj.Kind == ast.Var {
+				*ls.rows = append(*ls.rows, lockRow{ls.pkg, "(package)", v.Name, ls.fn, "access", ls.held[ls.g.mutex] > 0})
+			}
+		}
+		return true
+	})
+}
+
+func lockOf(c *ast.CallExpr) string {
+	b, _ := lockCall(c)
+	return b
+}
+
+// lockCall recognises X.mu.Lock() etc. and returns ("X.mu", "Lock").
+func lockCall(c *ast.CallExpr) (string, string) {
+	sel, ok := c.Fun.(*ast.SelectorExpr)
+	if !ok {
+		return "", ""
+	}
+	switch sel.Sel.Name {
+	case "Lock", "Unlock", "RLock", "RUnlock":
+		return exprStr(sel.X), sel.Sel.Name
+	}
+	return "", ""
+}
+
+// receiverBase: does the function operate on the guarded type (method of it, or of a type that
+// reaches it through a field, like Downloader.r)? We simply scan every function of the package.
+func lockRows(errs *[]string) []lockRow {
+	var rows []lockRow
+	for _, g := range guards {
+		p, err := loadPkg(g.dir)
+		if err != nil {
+			*errs = append(*errs, err.Error())
+			continue
+		}
+		// the guarded fields must still exist (a renamed field would silently empty the table)
+		found := map[string]bool{}
+		for _, f := range p.files {
+			for _, d := range f.Decls {
+				gd, ok := d.(*ast.GenDecl)
+				if !ok {
+					continue
+				}
+				for _, s := range gd.Specs {
+					switch ts := s.(type) {
+					case *ast.TypeSpec:
+						st, ok := ts.Type.(*ast.StructType)
+						if !ok || ts.Name.Name != g.typ {
+							continue
+						}
+						for _, fl := range st.Fields.List {
+							for _, n := range fl.Names {
+								found[n.Name] = true
+							}
+						}
+					case *ast.ValueSpec:
+						if g.typ == "" {
+							for _, n := range ts.Names {
+								found[n.Name] = true
+							}
+						}
+					}
+				}
+			}
+		}
+		for _, fld := range append([]string{g.mutex}, g.fields...) {
+			if !found[fld] {
+				*errs = append(*errs, fmt.Sprintf("lock table: %s %s.%s not found", g.dir, g.typ, fld))
+			}
+		}
+		names := make([]string, 0, len(p.files))
+		for n := range p.files {
+			names = append(names, n)
+		}
+		sort.Strings(names)
+		for _, n := range names {
+			f := p.files[n]
+			for _, d := range f.Decls {
+				fd, ok := d.(*ast.FuncDecl)
+				if !ok || fd.Body == nil {
+					continue
+				}
+				if fd.Recv == nil && (fd.Name.Name == "New" || fd.Name.Name == "NewWithInitial") {
+					continue // constructor: the value is not shared yet
+				}
+				fn := fd.Name.Name
+				if r := recvName(fd); r != "" {
+					fn = r + "." + fn
+				}
+				base := ""
+				if fd.Recv != nil && len(fd.Recv.List) > 0 && len(fd.Recv.List[0].Names) > 0 {
+					rv := fd.Recv.List[0].Names[0].Name
+					rt := recvName(fd)
+					if rt == g.typ {
+						base = rv
+					} else if f, ok := g.via[rt]; ok {
+						base = rv + "." + f
+					}
+				}
+				ls := &lockScan{base: base, held: map[string]int{}, rows: &rows, g: g, pkg: g.dir, fn: fn}
+				ls.scan(fd.Body)
+			}
+		}
+	}
+	return rows
+}
